@@ -206,3 +206,20 @@ Print Assumptions C02_wildcard_newline_refuted.
 Theorem C02_is_subword_spec : forall ci hay w, is_subword ci hay w = word_occurs ci w hay.
 Proof. exact is_subword_spec. Qed.
 Print Assumptions C02_is_subword_spec.
+
+(* ---- tie by translation: the Gallina definitions regenerated from dtypeutils.go by gotrans on
+   every run are the model's time-range predicates ---- *)
+From SigG Require Import Gen.
+From SigP Require Import GenC02.
+Theorem C02_code_CheckInRange_is_model : forall tr ts,
+  gen_CheckInRange (t_end tr) (t_start tr) ts = Filter.check_in_range tr ts.
+Proof. exact gen_CheckInRange_is_model. Qed.
+Print Assumptions C02_code_CheckInRange_is_model.
+Theorem C02_code_CheckRangeOverLap_is_model : forall tr lo hi,
+  gen_CheckRangeOverLap (t_end tr) (t_start tr) lo hi = Filter.check_range_overlap tr lo hi.
+Proof. exact gen_CheckRangeOverLap_is_model. Qed.
+Print Assumptions C02_code_CheckRangeOverLap_is_model.
+Theorem C02_code_AreTimesFullyEnclosed_is_model : forall tr lo hi,
+  gen_AreTimesFullyEnclosed (t_end tr) (t_start tr) lo hi = Filter.times_fully_enclosed tr lo hi.
+Proof. exact gen_AreTimesFullyEnclosed_is_model. Qed.
+Print Assumptions C02_code_AreTimesFullyEnclosed_is_model.
